@@ -220,7 +220,10 @@ def run_one(m, k, tier):
         if res["detected"]:
             res["status"] = "detected"
             return res
-        env = dict(os.environ, PYTHONPATH=os.path.join(repo, "perception_eval"), OPENBLAS_NUM_THREADS="1", OMP_NUM_THREADS="1", PYTHONDONTWRITEBYTECODE="1")
+        tdir = os.path.join(work, "tmp")  # the plotting tests leave ~90 MB per run in the temp dir
+        shutil.rmtree(tdir, ignore_errors=True)
+        os.makedirs(tdir)
+        env = dict(os.environ, PYTHONPATH=os.path.join(repo, "perception_eval"), OPENBLAS_NUM_THREADS="1", OMP_NUM_THREADS="1", PYTHONDONTWRITEBYTECODE="1", TMPDIR=tdir)
         t0 = time.time()
         r = subprocess.run(["/venv/bin/python", "-m", "pytest", "-q", "-x", "-p", "no:cacheprovider", "-n", "2", "--timeout=600", "perception_eval/test"], cwd=repo, env=env, capture_output=True, text=True, timeout=1800)
         res["tests_s"] = round(time.time() - t0, 1)
